@@ -192,10 +192,16 @@ def check(prop="C07", only=None):
     layer2 = None
     if not only:
         import steps
-        layer2 = steps.crash_windows(sd, keys)
-        layer2["victim_call_sequences"] = steps.dry_conformance(sd, scns, dry)
-        layer2["keyset_model"] = steps.keyset_model(sd)
-        layer2["keyset_model"]["rotation_victims"] = steps.rotation_calls_match(dry)
+        try:
+            layer2 = steps.crash_windows(sd, keys)
+            layer2["victim_call_sequences"] = steps.dry_conformance(sd, scns, dry)
+            layer2["keyset_model"] = steps.keyset_model(sd)
+            layer2["keyset_model"]["rotation_victims"] = steps.rotation_calls_match(dry)
+        except Infra as ex:
+            if not viol:
+                raise
+            print("NOTE: layer 2 analysis did not complete: %s" % str(ex)[:300])      # the verdict from the real mint stands
+            layer2 = {"error": str(ex)[:500], "agree": True}
         if not layer2["agree"]:
             print("NOTE: crash windows of MintSteps and of the real mint differ (model drift or a changed window; not a verdict): %s" % json.dumps(
                 {k: {"model": sorted(v["model"]), "real_mint": sorted(v["real_mint"])} for k, v in layer2["per_request_kind"].items() if not v["agree"]}))
